@@ -140,7 +140,8 @@ def r3(tree, prog, rep):
     # path as well (finally)
     if ok:
         before = not g.precedes(chain, ms)
-        after = g.reach([y for n in ms for (y, lab) in g.succ[n]], avoid_nodes=set(chain))
+        # (the exception considered is the one Manager.stop() lets through; the statements of the chain itself are not assumed to raise)
+        after = g.reach([y for n in ms for (y, lab) in g.succ[n]], avoid_nodes=set(chain), explicit_only=True)
         ok2 = before or (g.exit not in after and g.raise_exit not in after)
         rep.check("C17.R3", "Dilator.stop attaches the stoppedD chain whichever way Manager.stop() returns (normally or raising from the "
                   "application's status callback)", ok2, site(fn, MGR), key="C17.R3:Dilator.stop:chain-on-every-exit",
